@@ -60,7 +60,7 @@ func assertGlobalsUnchanged(res *engine.Result, before map[string]string, after 
 	now := injectorGlobals()
 	for name, was := range before {
 		if now[name] != was {
-			res.Violate(fmt.Sprintf("injector-global-changed %s after=%s", name, after),
+			res.Violate(fmt.Sprintf("injector-global-changed %s (%s)", name, after),
 				fmt.Sprintf("package-level state of the injector changed while the process ran (%s): %s was [%s], is [%s]; later decisions no longer depend on their inputs only",
 					after, name, was, now[name]), replay)
 		}
